@@ -194,3 +194,18 @@ Definition gen_frontend_rules (extras : list (N * extra)) (hcfgs : list (N * opt
 (* the authentication service of the path's own configuration accepted the client *)
 Definition authenticated (out : name -> outcome) (a : auth) : Prop :=
   a_deny a = false /\ exists n, a_name a = Some n /\ out n = OOk.
+
+(* ------------------------------------------------------------------ *)
+(* txn.pathID.  The backend section starts with
+     http-request set-var(txn.pathID) var(req.base),map_<m>(_back_<id>_idpath__<m>.map)
+   and every per path rule tests the variable.  `m` is the content of these maps as
+   (key of the host path, path id); path ids start at 1, an unset variable is 0 here. *)
+
+Definition derive_id (m : list (N * N)) (k : N) : N := assoc_n 0%N k m.
+
+(* the maps have an entry for every path of the backend *)
+Definition ids_cover (m : list (N * N)) (ds : list pdecl) : Prop :=
+  forall d, In d ds -> In (d_key d, d_id d) m.
+
+Definition ids_coverb (m : list (N * N)) (ds : list pdecl) : bool :=
+  forallb (fun d => existsb (fun e => N.eqb (fst e) (d_key d) && N.eqb (snd e) (d_id d)) m) ds.
